@@ -361,6 +361,11 @@ def _partial_case(world, c, i):
     return dict(id=i, pols=c["pols"], req=m["req"], store=m["store"], completions=m["completions"], _keep=bool(c.get("keep")))
 
 
+def _pstore_case(world, c, i):
+    m = world["missing"][c["missing"] - 1]
+    return dict(id=i, pols=c["pols"], req=world["req"], store=m["store"], missing=m["uid"], options=m["options"])
+
+
 def _mutate_partial(ev):
     if ev.get("ev") != "Partial" or not ev.get("scratch"):
         return None
@@ -373,8 +378,10 @@ def _mutate_partial(ev):
 C13 = dict(
     family="partial", trace_module="Trace_Partial.tla",
     models=[dict(name="mc_partial", module="MC_Partial.tla", cfg=dict(quick="MC_Partial_quick.cfg", thorough="MC_Partial_thorough.cfg"),
-                 cases=_partial_case, limit=dict(quick=2000, thorough=None))],
-    nontrivial=lambda ev: ev.get("ev") == "Partial",
+                 cases=_partial_case, limit=dict(quick=2000, thorough=None)),
+            dict(name="mc_pstore", module="MC_PartialStore.tla", cfg=dict(quick="MC_PartialStore.cfg", thorough="MC_PartialStore.cfg"), family="pstore",
+                 cases=_pstore_case)],
+    nontrivial=lambda ev: ev.get("ev") in ("Partial", "PartialStore"),
     key=lambda ev: [ev.get("pols"), ev.get("req")],
     mutate=_mutate_partial, chunk=250,
     rule="G: policy sets (1-3 policies) whose conditions combine 5 known atoms (true/false and an atom of each error class) with 22 atoms that mention "
